@@ -19,54 +19,26 @@ Not decided: cell-level histogram counts (numpy.histogramdd trusted).
 """
 import ast
 
-from ..absint import Structured
+from ..engines.seqval import SeqExec, show
 from ..srcmodel import AnalysisError, U, calls_in, walk_shallow, names_in
 
 DS = 'src/mbi/dataset.py'
 DOM = 'src/mbi/domain.py'
 
 
-def strip_list(e):
-    while isinstance(e, ast.Call) and isinstance(e.func, ast.Name) and e.func.id in ('list', 'tuple') and len(e.args) == 1:
-        e = e.args[0]
-    return e
-
-
-def column_selection(e):
-    """If e selects columns of a frame by name: return (frame_expr_text, columns_expr_text)."""
-    # X.loc[:, C]
-    if isinstance(e, ast.Subscript) and isinstance(e.value, ast.Attribute) and e.value.attr == 'loc' \
-            and isinstance(e.slice, ast.Tuple) and len(e.slice.elts) == 2 and U(e.slice.elts[0]) == ':':
-        return U(e.value.value), U(strip_list(e.slice.elts[1]))
-    # X[C] / X[list(C)]
-    if isinstance(e, ast.Subscript) and not isinstance(e.slice, (ast.Tuple, ast.Slice)):
-        return U(e.value), U(strip_list(e.slice))
-    # X.reindex(columns=C) / X.filter(items=C)
-    if isinstance(e, ast.Call) and isinstance(e.func, ast.Attribute) and e.func.attr in ('reindex', 'filter'):
-        for k in e.keywords:
-            if k.arg in ('columns', 'items'):
-                return U(e.func.value), U(strip_list(k.value))
-    return None
-
-
-class DfAssigned(Structured):
-    """must-analysis: self.df assigned on every path of __init__"""
-    def copy(self, st): return set(st)
-    def join(self, a, b): return a & b
-    def on_assign(self, st, s):
-        for t in (s.targets if isinstance(s, ast.Assign) else [s.target]):
-            if U(t) == 'self.df':
-                st.add('df')
-        return st
-    def unsupported(self, st, stmt): return st
+def alternatives(v):
+    return set(v[1]) if isinstance(v, tuple) and v and v[0] == 'phi' else {v}
 
 
 def run(ctx):
     repo = ctx.repo
-    ctx.explanation = ('Structural rules over src/mbi/dataset.py and src/mbi/domain.py: ownership of the Dataset fields, '
-                       'by-name column selection in domain order on every constructor path, one column list for frame and '
-                       'domain in project, histogram arguments taken from the dataset\'s own fields, parallel construction '
-                       'of Domain arguments, order-preserving filters, None-tests. Exhaustive over both files.')
+    ctx.explanation = ('Value-based structural rules over src/mbi/dataset.py and src/mbi/domain.py. Every method is evaluated '
+                       'abstractly (engines/seqval.py): expressions denote ordered attribute sequences, domains, frames and '
+                       'datasets as terms that are independent of spelling (locals, new helpers, comprehension/generator, '
+                       'delegation to a sibling Domain method are all looked through). Rules compare those terms: ownership '
+                       'of the Dataset fields, by-name column selection in domain order on every constructor path, one '
+                       'column list for frame and domain in project, histogram arguments taken from the dataset\'s own '
+                       'fields, parallel construction of Domain arguments, order-preserving filters, None-tests, exact size.')
     ctx.rule_text = 'one obligation per field store, per Dataset/Domain construction, per histogram argument, per filter, per None-test'
     ctx.trusted = ['pandas by-name column selection, numpy.histogramdd']
     methods = repo.nmethods(DS, 'Dataset')
@@ -76,6 +48,7 @@ def run(ctx):
     init = methods['__init__']
     p_df, p_dom = init.params[1], init.params[2]
     p_w = init.params[3] if len(init.params) > 3 else None
+    SELF = ('ds', 'self')
 
     # ---- owner -------------------------------------------------------------------------------
     n_owner = 0
@@ -92,137 +65,100 @@ def run(ctx):
     ctx.floor('stores to Dataset fields', n_owner, 3)
 
     # ---- column order on every constructor path ----------------------------------------------------
-    stores = [s for s in ast.walk(init.node) if isinstance(s, ast.Assign) and any(U(t) == 'self.df' for t in s.targets)]
-    if not stores:
-        raise AnalysisError('Dataset.__init__ no longer assigns self.df')
-    for s in stores:
-        sel = column_selection(s.value)
-        ok = sel is not None and sel[0] == p_df and sel[1] in ('%s.attrs' % p_dom, 'self.domain.attrs')
-        ctx.ob('column-order', init, s, ok,
+    ex = SeqExec(repo, init, SELF, {p_df: ('frame', p_df)})
+    exits = ex.exits(init.body, dict(ex.env0))
+    want_df = ('select', ('frame', p_df), ('attrs', ('dom', p_dom)))
+    for stmt, val in [(s, v) for s, t, v in ex.stores if t == 'self.df']:
+        ctx.ob('column-order', init, stmt, val == want_df,
                'the stored frame must be the given frame re-selected by name in domain order (`%s.loc[:, %s.attrs]`); stores `%s`'
-               % (p_df, p_dom, U(s.value)))
-    an = DfAssigned()
-    exits = an.exits(init.body, set())
-    ok = all('df' in st for _, st in exits)
-    ctx.ob('column-order', init, init.node, ok, 'self.df must be assigned on every path of the constructor',
+               % (p_df, p_dom, show(val)))
+    if not any(t == 'self.df' for _, t, _ in ex.stores):
+        raise AnalysisError('Dataset.__init__ no longer assigns self.df')
+    ok = bool(exits) and all(st.get('self.df') == want_df for _, st in exits)
+    ctx.ob('column-order', init, init.node, ok, 'self.df must hold the domain-ordered selection on every path out of the constructor',
            construct='definite assignment of self.df')
-    dom_store = [s for s in ast.walk(init.node) if isinstance(s, ast.Assign) and any(U(t) == 'self.domain' for t in s.targets)]
-    ctx.ob('column-order', init, dom_store[0] if dom_store else init.node,
-           bool(dom_store) and all(U(s.value) == p_dom for s in dom_store),
-           'the stored domain must be the domain whose attribute order the frame was selected by')
-    w_store = [s for s in ast.walk(init.node) if isinstance(s, ast.Assign) and any(U(t) == 'self.weights' for t in s.targets)]
-    ctx.ob('project-consistent', init, w_store[0] if w_store else init.node,
-           bool(w_store) and all(U(s.value) == p_w for s in w_store), 'the constructor must keep the weights it is given')
+    ok = bool(exits) and all(st.get('self.domain') == ('p', p_dom) for _, st in exits)
+    ctx.ob('column-order', init, init.node, ok,
+           'the stored domain must be the domain whose attribute order the frame was selected by', construct='self.domain store')
+    ok = bool(exits) and all(st.get('self.weights') == ('p', p_w) for _, st in exits)
+    ctx.ob('project-consistent', init, init.node, ok, 'the constructor must keep the weights it is given', construct='self.weights store')
 
     # ---- project -----------------------------------------------------------------------------------
     proj = methods['project']
     cols = proj.params[1]
-    defs = {}
-    for s in walk_shallow(proj.node):
-        if isinstance(s, ast.Assign) and len(s.targets) == 1 and isinstance(s.targets[0], ast.Name):
-            defs.setdefault(s.targets[0].id, []).append(s.value)
-    rets = [r for r in walk_shallow(proj.node) if isinstance(r, ast.Return)]
+    ex = SeqExec(repo, proj, SELF)
+    rets = ex.return_values()
     n_ds = 0
-    for r in rets:
-        v = r.value
-        if not (isinstance(v, ast.Call) and U(v.func) == 'Dataset'):
-            raise AnalysisError('Dataset.project: unrecognised return `%s`' % U(v))
-        n_ds += 1
-        args = list(v.args) + [None] * 3
-        kw = {k.arg: k.value for k in v.keywords}
-        a_df, a_dom = args[0], args[1]
-        a_w = args[2] if args[2] is not None else kw.get('weights')
-
-        def resolve(e):
-            if isinstance(e, ast.Name) and e.id in defs and len(defs[e.id]) == 1 and e.id != cols:
-                return defs[e.id][0]
-            return e
-        e_df, e_dom = resolve(a_df), resolve(a_dom)
-        sel = column_selection(e_df)
-        ok_df = sel is not None and sel[0] == 'self.df'
-        ok_dom = isinstance(e_dom, ast.Call) and U(e_dom.func) == 'self.domain.project' and len(e_dom.args) == 1
-        same = ok_df and ok_dom and sel[1] == U(strip_list(e_dom.args[0]))
-        ctx.ob('project-consistent', proj, r, same,
-               'frame columns selected by `%s`, domain projected by `%s`: must be one and the same column list of self.df / self.domain'
-               % (sel[1] if sel else U(e_df), U(e_dom.args[0]) if ok_dom else U(e_dom)))
-        ctx.ob('project-consistent', proj, r, a_w is not None and U(a_w) == 'self.weights',
-               'the projected dataset must carry self.weights (got `%s`)' % (U(a_w) if a_w is not None else None),
-               construct='weights of ' + U(r))
+    legal_cols = {('p', cols), ('wrap', ('p', cols))}
+    for r, v in rets:
+        for alt in alternatives(v):
+            if alt[0] != 'Dataset':
+                raise AnalysisError('Dataset.project: unrecognised return `%s`' % U(r))
+            n_ds += 1
+            _, F, D, W = alt
+            ok_df = F is not None and F[0] == 'select' and F[1] == ('frame', 'self.df')
+            ok_dom = D is not None and D[0] == 'project' and D[1] == ('dom', 'self.domain')
+            same = ok_df and ok_dom and F[2] == D[2]
+            ctx.ob('project-consistent', proj, r, same,
+                   'frame `%s`, domain `%s`: columns and domain must be selected by one and the same list, from self.df / self.domain'
+                   % (show(F) if F else None, show(D) if D else None))
+            if same:
+                ok = alternatives(F[2]) <= legal_cols
+                ctx.ob('project-consistent', proj, r, ok, 'the requested column list may be wrapped but not reordered: uses `%s`' % show(F[2]),
+                       construct='column list of ' + U(r))
+            ctx.ob('project-consistent', proj, r, W == ('weights', 'self'),
+                   'the projected dataset must carry self.weights (got `%s`)' % (show(W) if W else None), construct='weights of ' + U(r))
     ctx.floor('Dataset constructions in project', n_ds, 1)
-    # cols may only be normalised (str/int -> [cols]), never reordered
-    for s in walk_shallow(proj.node):
-        if isinstance(s, ast.Assign) and any(U(t) == cols for t in s.targets):
-            ok = U(s.value) in ('[%s]' % cols, 'list(%s)' % cols, 'tuple(%s)' % cols, '(%s,)' % cols)
-            ctx.ob('project-consistent', proj, s, ok, 'the requested column list may be wrapped but not reordered: `%s`' % U(s))
     drop = methods['drop']
     d_cols = drop.params[1]
-    rets = [r for r in walk_shallow(drop.node) if isinstance(r, ast.Return)]
-    d_defs = {s.targets[0].id: s.value for s in walk_shallow(drop.node)
-              if isinstance(s, ast.Assign) and isinstance(s.targets[0], ast.Name)}
-    for r in rets:
-        v = r.value
-        ok = isinstance(v, ast.Call) and U(v.func) == 'self.project' and len(v.args) == 1
-        arg = v.args[0] if ok else None
-        if ok and isinstance(arg, ast.Name) and arg.id in d_defs:
-            arg = d_defs[arg.id]
-        okf = ok and is_order_filter(arg, 'self.domain', d_cols, negate=True)
-        ctx.ob('project-consistent', drop, r, okf, 'drop must project onto the domain\'s attributes not in the list, in domain order')
+    ex = SeqExec(repo, drop, SELF)
+    want = ('call', 'project', SELF, ('filter', ('attrs', ('dom', 'self.domain')), True, ('p', d_cols)))
+    rets = ex.return_values()
+    if not rets:
+        raise AnalysisError('Dataset.drop: no return')
+    for r, v in rets:
+        ctx.ob('project-consistent', drop, r, v == want,
+               'drop must project onto the domain\'s attributes not in the list, in domain order; returns `%s`' % show(v))
 
     # ---- histogram -------------------------------------------------------------------------------------
     dv = methods['datavector']
-    hcalls = [c for c in calls_in(dv.node) if U(c.func).endswith('histogramdd')]
-    if len(hcalls) != 1:
+    ex = SeqExec(repo, dv, SELF)
+    ex.exits(dv.body, dict(ex.env0))
+    seen = {}
+    for c, v, args, kw in ex.callargs:
+        if U(c.func).endswith('histogramdd'):
+            seen[id(c)] = (c, args, kw)
+    if len(seen) != 1:
         raise AnalysisError('Dataset.datavector: expected one histogramdd call')
-    h = hcalls[0]
-    hdefs = {s.targets[0].id: s.value for s in walk_shallow(dv.node)
-             if isinstance(s, ast.Assign) and isinstance(s.targets[0], ast.Name)}
-    kw = {k.arg: k.value for k in h.keywords}
-    sample = h.args[0] if h.args else kw.get('sample')
-    bins = h.args[1] if len(h.args) > 1 else kw.get('bins')
-    wts = kw.get('weights', h.args[4] if len(h.args) > 4 else None)
-    if isinstance(bins, ast.Name) and bins.id in hdefs:
-        bins = hdefs[bins.id]
-    ctx.ob('histogram', dv, h, sample is not None and U(sample) in ('self.df.values', 'self.df.to_numpy()'),
-           'the sample must be the dataset\'s own (domain-ordered) frame values; got `%s`' % (U(sample) if sample is not None else None),
-           construct='sample of ' + U(h)[:60])
-    ok_bins = False
-    if isinstance(bins, ast.ListComp) and len(bins.generators) == 1 and not bins.generators[0].ifs:
-        g = bins.generators[0]
-        e = bins.elt
-        n = U(g.target)
-        edge = isinstance(e, ast.Call) and U(e.func) in ('range', 'np.arange', 'numpy.arange') and \
-            ((len(e.args) == 1 and U(e.args[0]).replace(' ', '') in (n + '+1', '1+' + n)) or
-             (len(e.args) == 2 and U(e.args[0]) == '0' and U(e.args[1]).replace(' ', '') in (n + '+1', '1+' + n)))
-        ok_bins = edge and U(g.iter) == 'self.domain.shape'
-    ctx.ob('histogram', dv, h, ok_bins,
+    h, args, kw = list(seen.values())[0]
+    sample = args[0] if args else kw.get('sample')
+    bins = args[1] if len(args) > 1 else kw.get('bins')
+    wts = kw.get('weights', args[4] if len(args) > 4 else None)
+    ctx.ob('histogram', dv, h, sample == ('values', ('frame', 'self.df')),
+           'the sample must be the dataset\'s own (domain-ordered) frame values; got `%s`' % (show(sample) if sample else None),
+           construct='sample of histogramdd')
+    ctx.ob('histogram', dv, h, bins == ('edges', ('shape', ('dom', 'self.domain'))),
            'bin edges must be 0..n (n+1 integer edges) for every attribute size n of self.domain.shape, in domain order; got `%s`'
-           % (U(bins) if bins is not None else None), construct='bins of ' + U(h)[:60])
-    ctx.ob('histogram', dv, h, wts is not None and U(wts) == 'self.weights',
-           'the histogram must be weighted by self.weights; got `%s`' % (U(wts) if wts is not None else None),
-           construct='weights of ' + U(h)[:60])
+           % (show(bins) if bins else None), construct='bins of histogramdd')
+    ctx.ob('histogram', dv, h, wts == ('weights', 'self'),
+           'the histogram must be weighted by self.weights; got `%s`' % (show(wts) if wts else None), construct='weights of histogramdd')
 
     check_domain(ctx)
 
 
-def is_order_filter(e, dom, param, negate):
-    """[a for a in <dom>[.attrs] if (not) a in param]  (list / tuple / generator forms)"""
-    e = strip_list(e)
-    if not isinstance(e, (ast.ListComp, ast.GeneratorExp)) or len(e.generators) != 1:
-        return False
-    g = e.generators[0]
-    if U(g.iter) not in (dom, dom + '.attrs') or len(g.ifs) != 1 or U(e.elt) != U(g.target):
-        return False
-    t = g.ifs[0]
-    neg = False
-    if isinstance(t, ast.UnaryOp) and isinstance(t.op, ast.Not):
-        t, neg = t.operand, True
-    if not (isinstance(t, ast.Compare) and len(t.ops) == 1 and U(t.left) == U(g.target) and U(t.comparators[0]) == param):
-        return False
-    if isinstance(t.ops[0], ast.NotIn):
-        neg = not neg
-    elif not isinstance(t.ops[0], ast.In):
-        return False
-    return neg == negate
+def parallel(A, S):
+    """is S the size tuple of the attribute tuple A, position by position?"""
+    if A[0] == 'attrs' and S == ('shape', A[1]):
+        return True
+    if S[0] == 'sizes' and S[2] == A:
+        return True
+    if A[0] == 'keys' and S[0] == 'values' and A[1] == S[1]:
+        return True
+    if A[0] == 'concat' and S[0] == 'concat':
+        return parallel(A[1], S[1]) and parallel(A[2], S[2])
+    if A[0] == 'phi' and S[0] == 'sizes' and S[2] == A:
+        return True
+    return False
 
 
 def check_domain(ctx):
@@ -231,60 +167,46 @@ def check_domain(ctx):
     for need in ('__init__', 'project', 'marginalize', 'merge', 'invert', 'canonical', 'size', 'axes', 'fromdict'):
         if need not in methods:
             raise AnalysisError('anchor vanished: Domain.%s' % need)
+    SELF = ('dom', 'self')
     # constructor: attrs/shape stored in parallel, config zips them
     init = methods['__init__']
     a, s_ = init.params[1], init.params[2]
-    st = {U(x.targets[0]): U(x.value) for x in ast.walk(init.node) if isinstance(x, ast.Assign)}
-    ok = st.get('self.attrs') in ('tuple(%s)' % a, 'list(%s)' % a) and st.get('self.shape') in ('tuple(%s)' % s_, 'list(%s)' % s_) \
-        and st.get('self.config') in ('dict(zip(%s, %s))' % (a, s_), 'dict(zip(self.attrs, self.shape))')
+    ex = SeqExec(repo, init, SELF)
+    exits = ex.exits(init.body, dict(ex.env0))
+    ok = bool(exits) and all(st.get('self.attrs') == ('p', a) and st.get('self.shape') == ('p', s_)
+                             and st.get('self.config') == ('dictzip', ('p', a), ('p', s_)) for _, st in exits)
     ctx.ob('parallel-domain', init, init.node, ok,
            'constructor must store attrs and shape position by position and map attr -> size by zipping them',
            construct='Domain.__init__ stores')
     n = 0
     for name, fi in methods.items():
         ctx.analysed(fi)
-        defs = {x.targets[0].id: x.value for x in walk_shallow(fi.node)
-                if isinstance(x, ast.Assign) and len(x.targets) == 1 and isinstance(x.targets[0], ast.Name)}
-        for c in calls_in(fi.node):
-            if isinstance(c.func, ast.Name) and c.func.id == 'Domain' and len(c.args) == 2:
+        ex = SeqExec(repo, fi, SELF)
+        ex.exits(fi.body, dict(ex.env0))
+        done = set()
+        for c, v, args, kw in ex.callargs:
+            if v[0] == 'Domain' and id(c) not in done and U(c.func) == 'Domain':
+                done.add(id(c))
                 n += 1
-                A, S = c.args
-                if isinstance(S, ast.Name) and S.id in defs:
-                    S = defs[S.id]
-                ok = parallel(A, S)
-                ctx.ob('parallel-domain', fi, c, ok,
-                       'attribute list `%s` and shape `%s` must be built by the same recipe over the same sequence' % (U(A), U(S)))
+                ctx.ob('parallel-domain', fi, c, parallel(v[1], v[2]),
+                       'attribute list `%s` and shape `%s` must be built by the same recipe over the same sequence' % (show(v[1]), show(v[2])))
     ctx.floor('Domain constructions in domain.py', n, 3)
     for name, neg in (('marginalize', True), ('invert', True), ('canonical', False)):
         fi = methods[name]
         p = fi.params[1]
-        cands = [x.value for x in walk_shallow(fi.node) if isinstance(x, (ast.Assign, ast.Return)) and x.value is not None]
-        ok = any(is_order_filter(v, 'self', p, neg) for v in cands)
-        ctx.ob('order-filter', fi, fi.node, ok,
-               'Domain.%s must keep the domain\'s own attribute order: a comprehension over self.attrs filtered by `%s %s`'
-               % (name, 'not in' if neg else 'in', p), construct='def ' + name)
-    # marginalize returns the projection onto that filtered list
-    fi = methods['marginalize']
-    rets = [r for r in walk_shallow(fi.node) if isinstance(r, ast.Return)]
-    ok = all(isinstance(r.value, ast.Call) and U(r.value.func) == 'self.project' for r in rets)
-    ctx.ob('order-filter', fi, rets[0], ok, 'marginalize must return self.project(<kept attributes>)')
+        ex = SeqExec(repo, fi, SELF)
+        want = ('filter', ('attrs', SELF), neg, ('p', p))
+        if name == 'marginalize':
+            want = ('project', SELF, want)
+        rets = ex.return_values()
+        if not rets:
+            raise AnalysisError('Domain.%s: no return' % name)
+        for r, v in rets:
+            ctx.ob('order-filter', fi, r, v == want,
+                   'Domain.%s must keep the domain\'s own attribute order: %s; returns `%s`' % (name, show(want), show(v)),
+                   construct='result of ' + name)
     none_tests(ctx, DOM, 'Domain')
     check_size(ctx, methods['size'])
-
-
-def parallel(A, S):
-    a, s = U(strip_list(A)), U(strip_list(S))
-    # (1) same text with attrs->shape / keys->values
-    if a.replace('.attrs', '.shape').replace('.keys()', '.values()') == s and a != s:
-        return True
-    # (2) shape = (self.config[x] for x in A)
-    S2 = strip_list(S)
-    if isinstance(S2, (ast.GeneratorExp, ast.ListComp)) and len(S2.generators) == 1 and not S2.generators[0].ifs:
-        g = S2.generators[0]
-        if U(g.iter) == a and isinstance(S2.elt, ast.Subscript) and U(S2.elt.value) in ('self.config', 'self') \
-                and U(S2.elt.slice) == U(g.target):
-            return True
-    return False
 
 
 def none_tests(ctx, rel, clsname):
